@@ -107,8 +107,13 @@ REG["C07"] = Spec(
     explanation="bounded model checking of Popen::create in parent role with symbolic fault injection in the model kernel; asserted at return: Ok iff started, exact errno, descriptor table back to the pre-call table, forked child reaped",
 )
 
+def boundary_kf():
+    return H("popen", "h_spawn_boundary_kf", unwind=3, unwindset=SPAWN_UW, timeout=1200, kind="kf",
+             bounds={"stream_config": "stdin=Pipe, stdout=Pipe, stderr=None", "boundary": "every model call made by the spawning thread during Popen::create"})
+
+
 REG["C08"] = Spec(
-    quick=[spawn_child_h(), spawn_parent_h()],
+    quick=[spawn_child_h(), spawn_parent_h(), boundary_kf()],
     encodes=SPAWN_ENC,
     bounds="single spawn from a pre-state holding 0..2 earlier Popens' parent ends (invariant: close-on-exec), every stream configuration",
     outside="two spawns actually interleaving on different threads (see known finding: pipe()+fcntl window); pipelines (C13 harness)",
@@ -160,9 +165,21 @@ REG["C09"] = Spec(
     assumptions=LIFE_ASSUME,
     explanation="inductive step over API histories: symbolic pre-state constrained by invariant I, one real operation against a model child that may exit / be reaped by a foreign waiter at every system call; I and the reported-status oracle asserted afterwards",
 )
+def life_pair():
+    b = dict(LIFE_BOUNDS)
+    b["operation"] = "a query (poll / wait / wait_timeout(0)) followed by a signalling call"
+    return H("popen", "h_life_pair", unwind=3, unwindset=[(r"os_wait_timeout", 4)], timeout=2400, bounds=b, covers=["COVER/foreign-reap-observed"])
+
+
+def life_pair_q():
+    b = dict(LIFE_BOUNDS)
+    b["operation"] = "poll() followed by terminate()"
+    return H("popen", "h_life_pair_q", unwind=3, unwindset=[(r"os_wait_timeout", 4)], timeout=1800, bounds=b, covers=["COVER/foreign-reap-observed"])
+
+
 REG["C10"] = Spec(
-    quick=[life_step()],
-    thorough=[life_step(), life_seq()],
+    quick=[life_step(), life_pair_q()],
+    thorough=[life_step(), life_pair(), life_seq()],
     encodes=LIFE_ENC,
     bounds={"quick": "one signalling call (any i32 signal number, SIGTERM, SIGKILL) from every state satisfying invariant I; kill() succeeds or fails", "thorough": "plus sequences of three operations where reaping and signalling interleave"},
     outside="Windows TerminateProcess path",
@@ -200,8 +217,8 @@ REG["C12"] = Spec(
 )
 C06_B = {"argv": "[\"/p\", a] with a of concrete length 0, 1, 2 over all 255 non-NUL byte values per position; argv of 1 element; optional executable override", "nul": "a NUL at any position of a 1- or 2-byte argument"}
 REG["C06"] = Spec(
-    quick=[H("popen", n, unwind=3, unwindset=SPAWN_UW + [(r"mk::proc_::c(str_eq|06_checks)", 8), (r"memchr", 6)], timeout=1500, bounds=C06_B)
-           for n in ("h_argv_s2", "h_argv_s1", "h_argv_e", "h_argv_none", "h_argv_nul_s2", "h_argv_nul_s1", "h_ident")],
+    quick=[H("popen", n, unwind=3, unwindset=SPAWN_UW + [(r"mk::proc_::c(str_eq|06_checks)", 10), (r"memchr", 8), (r"memcmp", 8), (r"strlen", 8), (r"posix::split_path", 8), (r"position", 8), (r"PrepExec", 6), (r"vh_posix::", 14), (r"mk::proc_::exec_common", 14)], timeout=1500, bounds=C06_B)
+           for n in ("h_argv_s2", "h_argv_s1", "h_argv_e", "h_argv_none", "h_argv_nul_s2", "h_argv_nul_s1", "h_ident", "h_exe_override_sb", "h_exe_override_bs", "h_exe_override_bb")],
     encodes=["Popen::create", "PopenOs::os_start", "PopenOsImpl::do_exec", "posix::{os_to_cstring,CVec::new,CVec::as_c_vec,prep_exec,PrepExec::{new,exec,assemble_exe,libc_exec},setuid,setgid,setpgid}", "std::env::set_current_dir"],
     bounds="argument vectors of 1..=2 entries, the symbolic entry of length 0..=2 over all non-NUL bytes (so empty, blank, quote and non-UTF-8 arguments are in); NUL anywhere; cwd of 2 symbolic bytes; setuid/setgid any u32 (uid != 0), each present or absent, setpgid on/off; parent is root",
     outside="vectors of 3+ arguments and arguments of 3+ bytes (SAT back end out of memory at 14 GB, measured); the environment de-duplication (format_env over HashSet/SipHash: CBMC does not finish in 20 min even with concrete names, measured) -- only 'environment unspecified => execv (inherit)' is decided; Windows format_env_block",
@@ -267,4 +284,75 @@ REG["C20"] = Spec(
                  "under Kani, Vec in the extracted text is a fixed-capacity array-backed model (overflow is an assertion failure); the native replayer runs the same text on std::Vec",
                  "reference parser written from the documented Microsoft CRT / CommandLineToArgvW rules; an independent Python transcription must agree with it on Microsoft's published examples"],
     explanation="the cfg(windows) functions are extracted textually on every run, compiled against a UTF-16 shim and model-checked by Kani/CBMC: parse_ms(assemble_cmdline(argv)) == argv for symbolic contents; counterexamples are replayed natively against an independent parser",
+)
+
+
+COMM_UW = [(r"vh_comm::", 14), (r"read_into", 6), (r"mk::comm::", 5), (r"posix::poll", 3), (r"memcmp", 8)]
+COMM_ENC = ["communicate::communicate", "Communicator::{new,read,limit_size,limit_time}", "raw::RawCommunicator::{new,read,read_into,do_read}", "raw::maybe_poll",
+            "raw::as_pollfd", "posix::{poll,PollFd::new,PollFd::test,check_err}", "std::fs::File::{read,write,drop}", "std::time::{Instant,Duration}"]
+COMM_ASSUME = COMMON_ASSUME[:1] + COMMON_ASSUME[3:] + [
+    "Linux pipe semantics: POLLIN iff buffered > 0, POLLHUP iff no writer, POLLOUT iff free >= PIPE_BUF, POLLERR iff no reader; write(n <= PIPE_BUF) atomic; short reads",
+    "the child may, at every parent system call, read any part of its stdin, write anything that fits to stdout/stderr, and close any stream; it cannot re-open a stream",
+    "a child blocked in poll/read/write of the parent is eventually served (fairness is used only to let a blocking call return, never to prove progress)",
+    "do_read's 4096-byte stack buffer is 8 bytes in the mounted copy (see size_cuts_in_mounted_copy); per-system-call transfers <= 3 bytes",
+    "io::Error's CustomOwner::outer_drop function pointer pinned; virtual calls restricted by -Z restrict-vtable"]
+CB = {"transfer": "1..=3 bytes per system call (parent results and child actions)", "pipe_capacity": "4096..=2^20 (symbolic)", "content": "position-tagged bytes g(tag, pos), tag symbolic per stream"}
+
+
+def comm_h(name, streams, input_len, budget, kind="proof", timeout=2400, **kw):
+    return H("comm", name, unwind=3, unwindset=COMM_UW, timeout=timeout, mem_gb=20, kind=kind,
+             bounds=dict(CB, streams=streams, input_len=input_len, parent_syscalls=budget), **kw)
+
+
+TR_IOE = comm_h("h_comm_trace_ioe", "stdin+stdout+stderr, fresh exchange", 2, 5)
+TR_IO = comm_h("h_comm_trace_io", "stdin+stdout, fresh exchange", 1, 4)
+TR_OE = comm_h("h_comm_trace_oe", "stdout+stderr, fresh exchange", 0, 4)
+TR_O = comm_h("h_comm_trace_o", "stdout only (no-poll fast path), fresh exchange", 0, 4)
+TR_I = comm_h("h_comm_trace_i", "stdin only (no-poll fast path), fresh exchange", 2, 4)
+ST_IOE = comm_h("h_comm_step_ioe", "stdin+stdout+stderr, arbitrary mid-exchange state (fill levels, offsets up to 2^40, closed peers)", 2, 3)
+ST_OE = comm_h("h_comm_step_oe", "stdout+stderr, arbitrary mid-exchange state", 0, 3)
+LIM_OE = comm_h("h_comm_limit_oe", "stdout+stderr, two successive reads with symbolic limits n1, n2 >= 1, arbitrary start state", 0, 4, covers=["COVER/second-limited-read"])
+LIM_IO = comm_h("h_comm_limit_io", "stdin+stdout, two successive limited reads", 2, 4)
+UTF8 = H("comm", "h_utf8_lossy", unwind=6, unwindset=[(r"memcmp", 20)], timeout=1200, bounds={"bytes": "every byte string of length 0..=4"})
+
+REG["C01"] = Spec(
+    quick=[TR_IOE, TR_O, TR_I, ST_IOE],
+    thorough=[TR_IOE, TR_IO, TR_OE, TR_O, TR_I, ST_IOE, ST_OE],
+    encodes=COMM_ENC,
+    bounds={"quick": "traces of 4-5 parent system calls from the start of an exchange for {in,out,err}, {out}, {in}; one inductive step of 3 system calls from an arbitrary mid-exchange state for {in,out,err}", "thorough": "plus {in,out}, {out,err} traces and the {out,err} step"},
+    outside="Popen::communicate*/Exec::capture/Pipeline::capture wrappers (they hand their three files to the same loop); transfers larger than 3 bytes per call; the Windows helper-thread variant (threads + channel: no installed engine executes Rust threads symbolically)",
+    assumptions=COMM_ASSUME,
+    explanation="safety form of termination, asserted inside the model kernel: a write is never issued that can block (chunk <= PIPE_BUF and room available after POLLOUT), a read never blocks while other pipes are held, poll is never called with nothing to wait for, and between two consecutive polls a byte moved or a stream was retired (no spinning at end-of-file)",
+)
+REG["C02"] = Spec(
+    quick=[TR_IOE, TR_O, ST_IOE, UTF8],
+    thorough=[TR_IOE, TR_IO, TR_OE, TR_O, TR_I, ST_IOE, ST_OE, UTF8],
+    encodes=COMM_ENC + ["communicate::from_utf8_lossy"],
+    bounds={"quick": "as C01 quick; input of 2 symbolic bytes; output offsets symbolic up to 2^40 in the step harness; UTF-8 helper on all byte strings up to 4 bytes", "thorough": "all stream subsets"},
+    outside="single transfers longer than 3 bytes; CaptureData::stdout_str (std's from_utf8_lossy directly); Windows read_and_transmit / writer closure (threads)",
+    assumptions=COMM_ASSUME,
+    explanation="stream bytes are position-tagged; the model write checks each byte handed to the child against the harness's copy of the input (once, in order) and the close of stdin against 'whole input accepted'; at return the vectors must equal exactly the bytes taken out of each pipe during the call, results are present iff piped, success without limits implies end-of-file everywhere",
+)
+REG["C03"] = Spec(
+    quick=[LIM_OE],
+    thorough=[LIM_OE, LIM_IO],
+    encodes=COMM_ENC,
+    bounds="two successive reads with symbolic limits n1, n2 in 1..=usize::MAX from an arbitrary mid-exchange state; data available on both streams at once; 4 parent system calls in total",
+    outside="more than two reads in sequence (the second read starts from the state the first one leaves, which is inside the arbitrary start state of the harness); Windows leftover hand-over",
+    assumptions=COMM_ASSUME,
+    explanation="per read: total returned <= n, no read asks the kernel for more than the remaining allowance, pieces are consecutive (content check against pipe offsets), all-empty success only at end-of-file, a read stops short of n only at end-of-file, stdin stays open while input remains",
+)
+TQ = comm_h("h_comm_time_q", "stdout only, arbitrary state, time limit t in [0, 3 s), 2 parent system calls", 0, 2, covers=["COVER/read-timed-out"])
+TO = comm_h("h_comm_time_o", "stdout only, arbitrary state, time limit t in [0, 3 s)", 0, 3, timeout=3000, covers=["COVER/read-timed-out"])
+TBIG = comm_h("h_comm_time_big", "stdout only, t in [2147484 s, 6000000 s] (beyond the 2^31-1 ms poll limit)", 0, 3, timeout=3600)
+TRES = comm_h("h_comm_time_resume", "stdout only, timed read then an unlimited read (resumption)", 0, 4, timeout=3600, covers=["COVER/resumed-after-error"])
+LATE = comm_h("h_comm_late_kf", "stdout only, streams stay ready past the deadline", 0, 4, kind="kf", timeout=3000)
+REG["C04"] = Spec(
+    quick=[ST_IOE, TQ],
+    thorough=[TR_IOE, ST_IOE, TO, TBIG, TRES, LATE],
+    encodes=COMM_ENC + ["Communicator::limit_time", "posix::poll overflow loop"],
+    bounds={"quick": "no time limit: never TimedOut (3-stream step harness); with limit t < 3 s: timeout only after t (to 1 ms), poll never asked to wait past the deadline; virtual clock with arbitrary sub-second start", "thorough": "plus t beyond 24.8 days (poll overflow loop unwound 3x), resumption after a timeout, the lateness obligation (known finding)"},
+    outside="real scheduler latency; Windows recv_timeout path",
+    assumptions=COMM_ASSUME + ["virtual clock: poll() that times out advances the clock by exactly its timeout; a poll that returns early advances it by any amount up to the timeout"],
+    explanation="time is a symbolic variable: the model poll advances a virtual clock; TimedOut implies a limit was set and now + 1 ms > deadline; without a limit poll is always called with -1 and TimedOut is impossible; the timeout error carries exactly the bytes read during the call (content check) and a following read resumes at the pipe offsets",
 )
